@@ -5,7 +5,10 @@
 (* Contract of GetMany: the result has one slot per requested key, in the order of  *)
 (* the request; a present key yields its record (same key, last written value), an  *)
 (* absent key yields nothing - however many keys are asked for at once, however     *)
-(* they are ordered, repeated, or mixed with unknown ones.                           *)
+(* they are ordered, repeated, or mixed with unknown ones.  And of PutMany: every   *)
+(* record of the batch is stored, however many there are and wherever in the batch  *)
+(* the records with an expiration sit (`batch` records, the first expiration at     *)
+(* index `exp_from`; the expirations lie weeks ahead).                               *)
 EXTENDS TraceLib
 VARIABLE l
 Ev == Trace[l]
